@@ -21,8 +21,30 @@ KIND_CTOR = {'multipoint': 'KMultiPoint', 'line': 'KLine', 'ring': 'KRing',
 
 
 # ---------------------------------------------------------------------------
-# raw buffers
+# raw buffers.  Only PUBLIC observations are used for anything that can raise an alarm:
+# `arr.__arrow_array__()` (the pyarrow array of a public geometry array) and its
+# .buffers() / .offset / .type.  Private attributes (`.data`, `.listarray`,
+# `_nesting_levels`, `buffer_*`) are touched only by the optional internal extras.
 # ---------------------------------------------------------------------------
+def pa_of(arr):
+    """the pyarrow array behind a public geometry array"""
+    return arr.__arrow_array__()
+
+
+def nlevels(pa_arr):
+    t, n = pa_arr.type, 0
+    while hasattr(t, 'value_type'):
+        t, n = t.value_type, n + 1
+    return n
+
+
+def is_null_typed(pa_arr):
+    t = pa_arr.type
+    while hasattr(t, 'value_type'):
+        t = t.value_type
+    return str(t) == 'null'
+
+
 def _levels(pa_arr):
     """(validity bits or None, [offsets arrays], values array or None) of a pyarrow
     (nested) list array or plain numeric array, read from buffers()"""
@@ -59,10 +81,15 @@ def _pyval(v):
     return int(v)
 
 
+def _nums(vals):
+    isf = np.issubdtype(vals.dtype, np.floating)
+    return [C.num(float(v)) if isf else C.Some(int(v)) for v in vals]
+
+
 def decode(arr):
-    """elements of a GeometryListArray as nested Python lists (None = missing),
-    decoded from the raw buffers"""
-    data = arr.data
+    """elements of a public list-backed geometry array as nested Python lists
+    (None = missing), decoded from the raw buffers of arr.__arrow_array__()"""
+    data = pa_of(arr)
     vb, offs, _ = _levels(data)
     if not offs:
         return [None if not data[i].is_valid else data[i].as_py() for i in range(len(data))]
@@ -84,57 +111,104 @@ def decode(arr):
     return out
 
 
+def _trim(offs, need):
+    trimmed = []
+    for o in offs:
+        o = [C.Nat(int(x)) for x in (o[:need + 1] if len(o) > need + 1 else o)]
+        trimmed.append(o)
+        need = int(o[-1]) if o else 0
+    return trimmed, need
+
+
+def export_la(arr):
+    """buffers of a public list-backed geometry array as the model's [listarr] (trailing
+    padding of each buffer trimmed to what the level above can reach).
+    Raises ValueError for null-typed arrays (not modelled)."""
+    data = pa_of(arr)
+    vb, offs, _ = _levels(data)
+    if not offs or is_null_typed(data):
+        raise ValueError('null-typed array: not modelled')
+    off, n = data.offset, len(data)
+    bits = C._bits(vb, off + n)
+    trimmed, need = _trim(offs, off + n)
+    return C.Rec('Build_listarr', C.Nat(off), C.Nat(n), None if bits is None else C.Some(bits),
+                 trimmed, _nums(_vals(data)[:need]))
+
+
 def view_of(arr):
     """(isna, offsets per level with the first sliced, values) of a real array with the
-    same trimming of trailing buffer padding as common.export_listarr"""
-    data = arr.data
+    same trimming as export_la -- buffer LAYOUT, used only by optional internal extras"""
+    data = pa_of(arr)
     vb, offs, _ = _levels(data)
     off, n = data.offset, len(data)
     bits = C._bits(vb, off + n)
     isna = [False if bits is None else (not bits[off + i]) for i in range(n)]
-    need = off + n
-    trimmed = []
-    for o in offs:
-        o = [C.Nat(int(x)) for x in (o[:need + 1] if len(o) > need + 1 else o)]
-        trimmed.append(o)
-        need = int(o[-1]) if o else 0
+    trimmed, need = _trim(offs, off + n)
     trimmed[0] = trimmed[0][off:off + n + 1]
-    vals = _vals(data)[:need]
-    isf = np.issubdtype(vals.dtype, np.floating)
-    vals = [C.num(float(v)) if isf else C.Some(int(v)) for v in vals]
-    return (isna, trimmed, vals)
+    return (isna, trimmed, _nums(_vals(data)[:need]))
 
 
-def export_scalar(e):
-    """the `.listarray` of a scalar geometry (its ListScalar's .values) as [listarr];
-    a plain numeric or null-typed values array has no offsets level (the model's
-    sc_buffer_offsets supplies [0, len] as the code does)"""
+def export_scalar_internal(e):
+    """OPTIONAL internal extra: the private `.listarray` of a scalar geometry as [listarr].
+    A plain numeric values array has no offsets level; a null-typed one is what the mixin
+    turns into offsets (np.array([0]),)."""
     la = e.listarray
     vb, offs, _ = _levels(la)
     off, n = la.offset, len(la)
     if not offs:
-        if la.type == 'null' or str(la.type) == 'null':
-            return C.Rec('Build_listarr', C.Nat(0), C.Nat(0), None, [], [])
-        vals = _vals(la)
-        isf = np.issubdtype(vals.dtype, np.floating)
-        return C.Rec('Build_listarr', C.Nat(off), C.Nat(n), None, [],
-                     [C.num(float(v)) if isf else C.Some(int(v)) for v in vals])
-    need = off + n
-    trimmed = []
-    for o in offs:
-        o = [C.Nat(int(x)) for x in (o[:need + 1] if len(o) > need + 1 else o)]
-        trimmed.append(o)
-        need = int(o[-1]) if o else 0
-    vals = _vals(la)[:need]
-    isf = np.issubdtype(vals.dtype, np.floating)
+        if str(la.type) == 'null':
+            return C.Rec('Build_listarr', C.Nat(0), C.Nat(0), None, [[C.Nat(0)]], [])
+        return C.Rec('Build_listarr', C.Nat(off), C.Nat(n), None, [], _nums(_vals(la)))
+    trimmed, need = _trim(offs, off + n)
     bits = C._bits(vb, off + n)
     return C.Rec('Build_listarr', C.Nat(off), C.Nat(n), None if bits is None else C.Some(bits),
-                 trimmed, [C.num(float(v)) if isf else C.Some(int(v)) for v in vals])
+                 trimmed, _nums(_vals(la)[:need]))
+
+
+def _num_of(v):
+    return C.num(float(v)) if isinstance(v, float) else C.Some(int(v))
+
+
+def _offs_from(lists):
+    out, s = [C.Nat(0)], 0
+    for l in lists:
+        s += len(l)
+        out.append(C.Nat(s))
+    return out
+
+
+def fresh_scalar(kind, el):
+    """the element's own nested lists encoded with offsets starting at 0 (Coq: fresh1/2/3
+    of Proofs/MeasuresScalarProofs.v) -- what a scalar of this element holds, whatever the
+    library's internal representation of scalars is"""
+    lev = G.LEVELS[kind]
+    if lev == 1:
+        return C.Rec('Build_listarr', C.Nat(0), C.Nat(len(el)), None, [], [_num_of(v) for v in el])
+    if lev == 2:
+        flat_ = [v for r in el for v in r]
+        return C.Rec('Build_listarr', C.Nat(0), C.Nat(len(el)), None, [_offs_from(el)],
+                     [_num_of(v) for v in flat_])
+    rings = [r for part in el for r in part]
+    flat_ = [v for r in rings for v in r]
+    return C.Rec('Build_listarr', C.Nat(0), C.Nat(len(el)), None,
+                 [_offs_from(el), _offs_from(rings)], [_num_of(v) for v in flat_])
+
+
+def coq_decoded(kind, dec):
+    """decoded elements in the shape of Coq's decode_elems: None / Some [parts of rings]"""
+    out = []
+    for d in dec:
+        if d is None:
+            out.append(None)
+        else:
+            parts = d if G.LEVELS[kind] == 3 else [rings_of(kind, d)]
+            out.append(C.Some([[[_num_of(v) for v in r] for r in part] for part in parts]))
+    return out
 
 
 def buffers_bytes(arr):
     """bytes of every buffer of the array (to show that a call did not write to them)"""
-    return [None if b is None else b.to_pybytes() for b in arr.data.buffers()]
+    return [None if b is None else b.to_pybytes() for b in pa_of(arr).buffers()]
 
 
 # ---------------------------------------------------------------------------
@@ -260,9 +334,14 @@ def line_library(with_nan=False):
 # batches of Coq cases
 # ---------------------------------------------------------------------------
 class Batch:
-    def __init__(self, imports, fn, case_ty, res_ty):
+    """cases evaluated by the Coq kernel in one go.  internal=<label>: an OPTIONAL extra about
+    something that is not public behaviour (buffer layout, private attributes): a
+    disagreement is counted as internal-differs-public-agrees:<label>, never reported."""
+
+    def __init__(self, imports, fn, case_ty, res_ty, internal=None):
         self.imports, self.fn, self.case_ty, self.res_ty = imports, fn, case_ty, res_ty
         self.cases, self.results, self.metas = [], [], []
+        self.internal = internal
 
     def add(self, case, result, signature, what, meta):
         self.cases.append(case)
@@ -270,6 +349,17 @@ class Batch:
         self.metas.append((signature, what, meta))
 
     def flush(self, rep, explain=8):
+        if self.internal:
+            try:
+                bad = C.coq_mismatches(self.imports, self.fn, self.case_ty, self.res_ty,
+                                       self.cases, self.results)
+            except C.ModelUnavailable:
+                rep.count(f'internal-unavailable:{self.internal}')
+                return 0
+            rep.count(f'internal-checked:{self.internal}', len(self.cases))
+            if bad:
+                rep.count(f'internal-differs-public-agrees:{self.internal}', len(bad))
+            return 0
         bad = C.coq_mismatches(self.imports, self.fn, self.case_ty, self.res_ty,
                                self.cases, self.results)
         for n, i in enumerate(bad):
